@@ -44,7 +44,8 @@ PROBE_FLOORS = {"negative_cash": 200, "floor_positive_cash_negative_net_rate": 5
                 "multi_decade_interval": 50, "five_or_more_cuts": 100, "query_between_cuts": 200,
                 "backwards_time_rejected": 200, "margined_position_alongside": 100, "empty_rebalance_accrual": 100,
                 "env_level_interest_checked": 300, "rate_book_zero_before_first_rate_event": 100,
-                "timezone_aware_mixed_offsets": 2000, "accrual_clock_started_by_rebalance": 200}
+                "timezone_aware_mixed_offsets": 2000, "accrual_clock_started_by_rebalance": 200,
+                "rate_event_replayed_at_reset": 50, "rate_book_checked_at_execution": 2000}
 getcontext().prec = 50
 
 
@@ -107,15 +108,36 @@ def execute_epi(scenario):
             break
         rb = ep["reset"]["books"]["__rate__"]
         had_rate = any(t <= ep["reset"]["now"] for t in rate_events)
+        rate_of0 = {e["id"]: e["r"] for e in env_spec["events"] if e["type"] == "rate"}
+        replayed = [rate_of0[r["id"]] for r in sim.sink.records if r.get("env") == 0 and r["kind"] == "cb" and r.get("obs") == "state"
+                    and ep["reset"]["seq"] < r["seq"] < ep["reset"]["end_seq"] and r.get("id") in rate_of0]
+        if replayed:
+            probe("rate_event_replayed_at_reset")
+            if rb[0] != replayed[-1]:
+                violate("rate_book", "after reset the reference rate on the exchange is {} but the last rate event replayed says {}".format(rb[0], replayed[-1]), kind="reset")
         if not had_rate:
             probe("rate_book_zero_before_first_rate_event")
             if rb[0] != 0.0 or rb[1] != 0.0:
                 violate("rate_book_initial", "the rate book is {} although no rate event has been delivered".format(rb), kind="initial")
         prev = None
         rates_seen = []
+        # the reference rate on the exchange is the last rate event delivered so far in this episode (0 before any)
+        rate_of = {e["id"]: e["r"] for e in env_spec["events"] if e["type"] == "rate"}
+        expected_rate = 0.0
         for r in sim.sink.records:
             if r.get("env") != 0 or not (ep["reset"]["seq"] < r["seq"]):
                 continue
+            if r["kind"] == "reset":
+                break       # next episode
+            if r["kind"] == "cb" and r.get("obs") == "state" and r.get("id") in rate_of:
+                expected_rate = rate_of[r["id"]]
+            if r["kind"] == "EXEC":
+                got_rate = r["books"]["__rate__"][0]
+                if got_rate != expected_rate:
+                    violate("rate_book", "at the execution of {} the reference rate on the exchange is {} but the last rate event delivered says {}".format(
+                        r["time"], got_rate, expected_rate), kind="exec")
+                    break
+                probe("rate_book_checked_at_execution")
             if r["kind"] == "step" and "books" in r:
                 rates_seen.append(r["books"]["__rate__"][0])
             if r["kind"] != "EXEC" or r.get("rebalancing", {}).get("post") is None:
